@@ -339,6 +339,62 @@ def run(ctx):
         if out != 'err:types':
             viol('ill-typed:' + ' '.join(v.split(':')[0] for v in line), f'{desc["line"]} → {out[:60]} (expected a type error)', {**desc, 'observed': out})
 
+    # ---------------- scalar / point entry forms of the Python-object API ----------------
+    # the same field element handed over as int, little-endian bytes (any length <= 32), hex text with and without 0x, Micheline
+    # int, Micheline bytes; the same point as bytes / hex text.  Every form must denote the element the group laws are stated for.
+    def entry_forms(v):
+        v %= R
+        forms = [('int', v), ('int+r', v + R), ('int-r', v - R)]
+        full = v.to_bytes(32, 'little')
+        short = full.rstrip(b'\x00') or b''
+        for nm, bs in (('bytes32', full), ('bytes-min', short), ('bytes-min+1', short + b'\x00' if len(short) < 32 else full)):
+            forms.append((nm, bs))
+            forms.append(('hex:' + nm, bs.hex()))
+            forms.append(('0xhex:' + nm, '0x' + bs.hex()))
+        return forms
+
+    fr_cls = t.BLS12_381_FrType
+    entry_scalars = [0, 1, 2, 255, 256, 257, 4096, 65536, 1 << 64, 1 << 248, (1 << 248) + 256, R - 1, R - 2, R - 256, R - 255,
+                     0x30, 0x3000, 0x0100, 0x1000]
+    entry_scalars += [rng.randrange(R) for _ in range(10 if quick else 300)]
+    entry_scalars += [rng.randrange(R) & ~0xff for _ in range(10 if quick else 300)]          # low byte zero
+    entry_scalars += [rng.randrange(R) & ~0xffff for _ in range(4 if quick else 100)]
+    for v in entry_scalars:
+        for nm, form in entry_forms(v):
+            desc = {'stream': 'entry', 'group': 'fr', 'form': nm, 'scalar': str(v % R)}
+            ctx.case(desc)
+            ctx.count('stream', 'entry')
+            ctx.count('entry-form', nm.split(':')[0])
+            try:
+                obj = fr_cls.from_python_object(form)
+                got = obj.value
+                opt = obj.to_micheline_value(mode='optimized')
+                back = fr_cls.from_micheline_value(opt).value
+                back2 = fr_cls.from_micheline_value(obj.to_micheline_value(mode='readable')).value
+            except Exception as e:  # noqa: BLE001
+                got, opt, back, back2 = f'{type(e).__name__}: {e}', None, None, None
+            want = v % R
+            if got != want:
+                shown = form.hex() if isinstance(form, bytes) else form
+                viol(f'fr:entry-form:{nm.split(":")[0]}', f'bls12_381_fr.from_python_object({shown!r}) denotes {got}, the little-endian value of these bytes modulo r is {want}',
+                     {**desc, 'argument': shown, 'observed': str(got), 'expected': str(want)})
+            elif back != want or back2 != want or opt != {'bytes': want.to_bytes(32, 'little').hex()}:
+                viol('fr:micheline-roundtrip', f'fr {want}: optimized form {opt} reads back as {back}, readable as {back2}', {**desc, 'optimized': opt})
+    for grp in ('g1', 'g2'):
+        for k in [0, 1, R - 1] + [rng.randrange(R) for _ in range(2 if quick else 20)]:
+            enc = ref_encode(grp, P.point(grp, k))
+            for nm, form in (('bytes', enc), ('hex', enc.hex()), ('0xhex', '0x' + enc.hex())):
+                desc = {'stream': 'entry', 'group': grp, 'form': nm, 'k': str(k)}
+                ctx.case(desc)
+                ctx.count('stream', 'entry')
+                try:
+                    got = bytes(P.cls[grp].from_python_object(form))
+                except Exception as e:  # noqa: BLE001
+                    got = f'{type(e).__name__}: {e}'
+                if got != enc:
+                    viol(f'{grp}:entry-form:{nm}', f'{grp}.from_python_object({nm} of {k}·G) = {got if isinstance(got, str) else got.hex()[:40]}, expected the same 0x{enc.hex()[:40]}…',
+                         {**desc, 'observed': got if isinstance(got, str) else got.hex()})
+
     # ---------------- pairing ----------------
     def pairing_case(exps):
         """exps: [(a, b)] meaning the pair (a·G1, b·G2)"""
